@@ -30,6 +30,8 @@ type BOp struct {
 	AtMs int    `json:"at"`
 	K    string `json:"k"` // create update destroy
 	ID   int    `json:"id"`
+	// Mapped: the write goes to the mapped input (type TB, same id) instead of the primary
+	Mapped bool `json:"mapped,omitempty"`
 }
 
 // BPlan is a black-box plan: a probe QController with scripted outcomes.
@@ -39,6 +41,9 @@ type BPlan struct {
 	RequeueMs int      `json:"requeuems"`
 	Outcomes  []string `json:"outcomes"`
 	Script    []BOp    `json:"script"`
+	// MapOutcomes, when non-nil, adds a mapped input (type TB; TB/x maps to the primary TA/x) whose MapInput
+	// invocations end as scripted (ok | err | panic).
+	MapOutcomes []string `json:"mapoutcomes,omitempty"`
 }
 
 var bids = []string{"a", "b", "c"}
@@ -61,6 +66,14 @@ func GenB(t *rapid.T) BPlan {
 		}
 	}), 1, 25).Draw(t, "script")
 
+	if rapid.IntRange(0, 2).Draw(t, "hasmapped") == 0 {
+		p.MapOutcomes = rapid.SliceOfN(rapid.SampledFrom([]string{"ok", "err", "err", "panic"}), 1, 8).Draw(t, "mapoutcomes")
+
+		for i := range p.Script {
+			p.Script[i].Mapped = rapid.IntRange(0, 2).Draw(t, "tomapped") == 0
+		}
+	}
+
 	sort.SliceStable(p.Script, func(i, j int) bool { return p.Script[i].AtMs < p.Script[j].AtMs })
 
 	// template: one key that keeps failing for more than half a virtual hour (backoff must keep its shape however
@@ -68,7 +81,7 @@ func GenB(t *rapid.T) BPlan {
 	if rapid.IntRange(0, 7).Draw(t, "longfail") == 0 {
 		p.Conc = 1
 		p.Script = []BOp{{AtMs: 0, K: "create", ID: 0}}
-		p.Outcomes = nil
+		p.Outcomes, p.MapOutcomes = nil, nil
 
 		for i, n := 0, rapid.IntRange(30, 50).Draw(t, "nfail"); i < n; i++ {
 			p.Outcomes = append(p.Outcomes, "err")
@@ -112,6 +125,16 @@ func runB(p BPlan) (v hk.Verdict) {
 		Requeue: time.Duration(p.RequeueMs) * time.Millisecond,
 	}
 
+	if p.MapOutcomes != nil {
+		qp.Ins = append(qp.Ins, sim.InSpec{NS: "n1", Typ: "TB", Kind: controller.InputQMapped})
+		qp.MapOut = sim.Outcomes(p.MapOutcomes)
+		qp.Mapper = map[string][]string{}
+
+		for _, id := range bids {
+			qp.Mapper["TB/"+id] = []string{id}
+		}
+	}
+
 	if err := w.RT.RegisterQController(qp); err != nil {
 		v.Failf("harness: %v", err)
 
@@ -128,11 +151,16 @@ func runB(p BPlan) (v hk.Verdict) {
 			time.Sleep(d)
 		}
 
-		ptr := resource.NewMetadata("n1", "TA", bids[op.ID], resource.VersionUndefined)
+		typ := "TA"
+		if op.Mapped && p.MapOutcomes != nil {
+			typ = "TB"
+		}
+
+		ptr := resource.NewMetadata("n1", typ, bids[op.ID], resource.VersionUndefined)
 
 		switch op.K {
 		case "create":
-			_ = ext.Create(w.Ctx, hres.New("n1", "TA", bids[op.ID], "v"+strconv.Itoa(i)))
+			_ = ext.Create(w.Ctx, hres.New("n1", typ, bids[op.ID], "v"+strconv.Itoa(i)))
 		case "update":
 			_, _ = ext.UpdateWithConflicts(w.Ctx, ptr, func(r resource.Resource) error {
 				r.(*hres.R).SetValue("v" + strconv.Itoa(i)) //nolint:forcetypeassert
@@ -170,9 +198,20 @@ func runB(p BPlan) (v hk.Verdict) {
 	byKey := map[model.Key][]sim.Obs{}
 
 	for _, o := range obs {
-		if o.Job == "reconcile" {
+		if o.Job == "reconcile" || o.Job == "map" {
 			byKey[o.Key] = append(byKey[o.Key], o)
 		}
+	}
+
+	// a successful map job of TB/x queues the primary TA/x: like a change of the primary it may cut a backoff short
+	mappedBetween := func(k model.Key, from, to time.Duration) bool {
+		for _, o := range obs {
+			if o.Job == "map" && o.Out == "ok" && o.Key.ID == k.ID && k.Typ == "TA" && o.T >= from && o.T <= to {
+				return true
+			}
+		}
+
+		return false
 	}
 
 	commitBetween := func(k model.Key, from, to time.Duration) bool {
@@ -194,7 +233,7 @@ func runB(p BPlan) (v hk.Verdict) {
 			if i+1 < len(seq) {
 				next := seq[i+1]
 				gap := next.T - o.End
-				changed := commitBetween(k, o.T, next.T)
+				changed := commitBetween(k, o.T, next.T) || mappedBetween(k, o.T, next.T)
 
 				switch {
 				case failed && !changed:
@@ -211,7 +250,7 @@ func runB(p BPlan) (v hk.Verdict) {
 
 					// with at least as many workers as keys a worker is always free for this key, so the retry
 					// cannot be later than the envelope either (this is what detects a backoff that never resets)
-					if p.Conc >= len(bids) && gap > hi+time.Millisecond {
+					if nkeys := len(bids) * (1 + len(qp.Mapper)/len(bids)); p.Conc >= nkeys && gap > hi+time.Millisecond {
 						v.Failf("key %s: retry after failure #%d came after %s, later than the backoff envelope [%s, %s] although a worker was free (backoff not reset after success?)", k, fails+1, gap, lo, hi)
 					}
 
@@ -248,10 +287,18 @@ func runB(p BPlan) (v hk.Verdict) {
 
 			v.Label("consecutive-failures")
 		}
+
+		if k.Typ == "TB" && maxFails >= 1 {
+			v.Label("map-job-failed-and-retried")
+		}
 	}
 
 	// other keys keep being reconciled: every existing primary's last observation is current
 	for k, r := range cur {
+		if k.Typ != "TA" {
+			continue
+		}
+
 		seq := byKey[k]
 		if len(seq) == 0 {
 			v.Failf("primary %s exists but was never reconciled", r)
